@@ -199,8 +199,15 @@ def run_tuple(case, r):
         got = tx.subs(sub)
         exp = make(kind, "T", [smap.get(x, x) for x in ux],
                    [smap.get(x, x) for x in lx], bk)
-        # sign/identity must agree; both construction paths canonicalise
-        if got != exp:
+        # sign/identity must agree; both construction paths canonicalise.
+        # (bra-ket antisymmetric 'diagonal' elements T^{x}_{x} are only
+        # defined up to their sign, see check_pair)
+        mu = [smap.get(x, x) for x in ux]
+        ml = [smap.get(x, x) for x in lx]
+        o_ = orbit(kind, tuple(mu), tuple(ml), bk).get((tuple(mu), tuple(ml)))
+        if o_ is not None and len(o_) == 2 and got == -exp:
+            pass
+        elif got != exp:
             # related-by-symmetry results are fine only if identical objects
             r.fail("subs", f"{tx}.subs({sub}) = {got}, direct construction "
                    f"gives {exp}")
@@ -282,18 +289,32 @@ def run_assume(case, r):
     ok, e3 = lib_call(r, "assume_stepwise", lambda: _stepwise(raw, case, kw))
     if ok and e3.sympy != e1.sympy:
         r.fail("stepwise_differs", f"constructor: {e1}; stepwise: {e3}")
-    # only affected tensors change
-    if tensor_multiset(raw, case["real"]) != tensor_multiset(e1.sympy, False):
-        a, b = tensor_multiset(raw, case["real"]), tensor_multiset(e1.sympy, False)
-        r.fail("tensors_changed", f"{sorted(a - b)} vs {sorted(b - a)}")
+    # only affected tensors change (term by term: terms may cancel once the
+    # declared symmetry is known)
     affected = set(case["sym_tensors"]) | set(case["antisym_tensors"])
     if case["real"]:
         affected |= {"f", "V"}
-    for t in S(raw).atoms(SymbolicTensor):
-        if t.name not in affected and not (case["real"] and "cc" in t.name):
-            if t not in e1.sympy.atoms(SymbolicTensor):
-                r.fail("unaffected_tensor_changed", f"{t} in {raw} -> {e1}")
-                break
+    kw_t = {k: v for k, v in kw.items() if k != "target_idx"}
+    for t in Add.make_args(S(raw)):
+        ok_t, et = lib_call(r, "assume_term", Expr, t, **kw_t)
+        if not ok_t or et.sympy == 0:
+            continue
+        if tensor_multiset(t, case["real"]) != tensor_multiset(et.sympy, False):
+            a, b = tensor_multiset(t, case["real"]), \
+                tensor_multiset(et.sympy, False)
+            r.fail("tensors_changed", f"{t} -> {et}: {sorted(a - b)} vs "
+                   f"{sorted(b - a)}")
+            break
+        stop = False
+        for x in S(t).atoms(SymbolicTensor):
+            if x.name not in affected and \
+                    not (case["real"] and "cc" in x.name):
+                if x not in et.sympy.atoms(SymbolicTensor):
+                    r.fail("unaffected_tensor_changed", f"{x} in {t} -> {et}")
+                    stop = True
+                    break
+        if stop:
+            break
     # value in a model that satisfies the assumptions
     sizes = [(1, 1)] if case["spin"] else [(2, 2), (3, 2)]
     for k, (no, nv) in enumerate(sizes):
